@@ -7,12 +7,12 @@
    Inodes live in an append-only table (id = position) because open handles keep addressing an inode
    after it has been renamed or removed, exactly as the Go pointers do.  Definitions only. *)
 From Coq Require Import List Arith Ascii String Bool.
-From AV Require Import lib.Str lib.Path.
+From AV Require Import lib.Str lib.Path model.CFS_file.
 Import ListNotations.
 Local Open Scope string_scope.
 Local Open Scope list_scope.
 
-Definition byte := nat.
+Notation byte := CFS_file.byte (only parsing).
 
 Inductive err :=
 | ENotExist | EExist | ENotDir | EIsDir | ENotEmpty | EInvalidArg | EInvalidOp
@@ -51,7 +51,9 @@ Definition fs_init : fs :=
 
 Definition get_ino (s : fs) (id : nat) : ino := nth id (inodes s) {| i_node := IDir []; i_parent := root_id |}.
 Definition set_ino (s : fs) (id : nat) (x : ino) : fs :=
-  {| inodes := firstn id (inodes s) ++ x :: skipn (S id) (inodes s); handles := handles s |}.
+  if Nat.ltb id (List.length (inodes s))
+  then {| inodes := firstn id (inodes s) ++ x :: skipn (S id) (inodes s); handles := handles s |}
+  else s.
 Definition add_ino (s : fs) (x : ino) : fs * nat :=
   ({| inodes := inodes s ++ [x]; handles := handles s |}, List.length (inodes s)).
 Definition is_dir (s : fs) (id : nat) : bool :=
@@ -239,7 +241,9 @@ Definition remove (s : fs) (name0 : string) : fs * res unit :=
 (* ---- handle operations ---- *)
 Definition get_handle (s : fs) (h : nat) : option handle := nth_error (handles s) h.
 Definition set_handle (s : fs) (h : nat) (x : handle) : fs :=
-  {| inodes := inodes s; handles := firstn h (handles s) ++ x :: skipn (S h) (handles s) |}.
+  if Nat.ltb h (List.length (handles s))
+  then {| inodes := inodes s; handles := firstn h (handles s) ++ x :: skipn (S h) (handles s) |}
+  else s.
 Definition with_ptr (x : handle) (p : P I) : handle :=
   {| h_ino := h_ino x; h_ptr := p; h_append := h_append x; h_r := h_r x; h_w := h_w x |}.
 
